@@ -45,6 +45,51 @@ def depth3_root_lost(st, verdicts):
     return any(st[i] == 2 for i in (2, 3))
 
 
+def h_bykey_mixed(s0: int, nv: bool, kind: int, extra: int):
+    """mixed-type conflict: src has a mapping under 'n', dst a scalar. Whatever the outcome (normal return, DocumentSyncConflict or the
+    TypeError the current code raises), dst['n'] may only be overwritten if the key strategy selected 'n'; other keys follow the reference merge."""
+    assert 0 <= s0 <= 2 and 0 <= kind <= 2 and 0 <= extra <= 1
+    fresh_path()
+    s0, nv, kind, extra = ci(s0, 0, 2), cb(nv), ci(kind, 0, 2), ci(extra, 0, 1)
+    with nt():
+        src = {"n": {"y": 1, "m": {"z": 1}}, "x": 1}
+        dst = {"n": 5}
+        if s0 == 1:
+            dst["x"] = 1
+        elif s0 == 2:
+            dst["x"] = 0
+        if extra:
+            dst["only"] = 7
+        if kind == 0:
+            strat = None
+        elif kind == 1:
+            strat = lambda key: nv if key == "n" else False
+        else:
+            strat = "^n$" if nv else "^$nomatch"
+        m = DocSync.ByKey(strat)
+        try:
+            m(src, dst)
+            out = "ok"
+        except DocumentSyncConflict:
+            out = "conflict"
+        except TypeError:
+            out = "typeerror"
+        selected = kind != 0 and nv
+        ok = True
+        if dst.get("n") != 5 and not selected:
+            ok = False          # overwritten although not selected
+        if dst.get("n") not in (5, {"y": 1, "m": {"z": 1}}):
+            ok = False          # neither old nor new
+        if extra and dst.get("only") != 7:
+            ok = False
+        if s0 == 2 and dst.get("x") != 0:
+            ok = False          # 'x' differs and is never selected here
+        if kind == 0 and out == "ok":
+            ok = False          # a conflict with no strategy must not pass silently
+    reached()
+    assert ok
+
+
 def h_bykey(s0: int, s1: int, s2: int, s3: int, vd: int, kind: int, extra: int):
     """real ByKey merge == reference merge: overwritten iff (differs and strategy(full dotted key)); dst-only keys kept;
     with no strategy and >=1 conflict -> DocumentSyncConflict naming exactly the conflicting full keys; the strategy is only asked about full keys."""
@@ -148,5 +193,6 @@ def h_update(s0: int, s1: int, s2: int, extra: int):
 
 HARNESSES = [
     dict(name="h_bykey", twin="h_bykey__reach", timeout=(400, 900), parts=(16, 16)),
+    dict(name="h_bykey_mixed", timeout=(200, 400)),
     dict(name="h_update", timeout=(200, 400)),
 ]
